@@ -35,7 +35,7 @@ ID = "C07"
 LEAN_TARGETS = ["RV.C07.Props", "RV.C07.Audit"]
 AUDIT = "RV/C07/Audit.lean"
 DRIVER = "drv_c07"
-CASES = {"quick": 1200, "thorough": 30000, "search": 20000}
+CASES = {"quick": 1200, "thorough": 30000, "search": 2048}
 RULE = ("3-7 terms per case drawn from every kind (URIRef, Genid, RDFLibGenid, BNode, Variable, Literal over every "
         "datatype of XSDToPython with valid / invalid / non-normalised lexical forms, language tags differing in case, "
         "NaN/INF, naive and aware date-times, arbitrary Unicode incl. quotes, backslashes, CR/LF/TAB, controls, non-BMP), "
@@ -165,7 +165,24 @@ def _gen_retyped(rng):
     lang = rng.choice(LANGS) if rng.random() < 0.25 else None
     if lang and dt and rng.random() < 0.4:
         return {"k": "lit", "lex": lex, "dt": dt, "lang": lang, "nn": False, "re": "lang"}
+    if dt and rng.random() < 0.35:
+        # copy construction Literal(Literal(lex, datatype=dt)): datatype and value are copied, `ill_typed` is not
+        return {"k": "lit", "lex": lex, "dt": dt, "lang": None, "nn": False, "re": "copy"}
     return {"k": "lit", "lex": lex, "dt": dt, "lang": lang, "nn": False, "re": True}
+
+
+NUMERIC_NAMES = ["integer", "decimal", "double", "float", "unsignedByte", "long", "nonNegativeInteger"]
+ILL_NUMERIC = ["abc", "1.5.2", "", "x1", "2abc", "1,5", "--1", "0x10", "ten"]
+
+
+def _retyped_sibling(rng, t):
+    """another literal from the same constructor route and numeric datatype with another ill-formed lexical form
+    (both have `value None, ill_typed None`: the ordering of such a pair is what the numeric fast path must not break)"""
+    t2 = dict(t)
+    t2["lex"] = rng.choice([x for x in ILL_NUMERIC if x != t["lex"]])
+    if rng.random() < 0.3:
+        t2["dt"] = XSD + rng.choice(NUMERIC_NAMES)
+    return t2
 
 
 PY_VALUES = [["int", "0"], ["int", "5"], ["int", "-7"], ["bool", "True"], ["bool", "False"], ["float", "1.5"], ["float", "0.0"],
@@ -266,6 +283,14 @@ def gen_case(rng, tier, i):
             terms.append(_variant(rng, rng.choice(terms)))
         else:
             terms.append(_gen_term(rng, p_route))
+    # the literal-from-literal route in the ordering stream: ill-formed numeric forms in pairs, next to numeric literals
+    if rng.random() < (0.10 if thorough else 0.06):
+        base = {"k": "lit", "lex": rng.choice(ILL_NUMERIC), "dt": XSD + rng.choice(NUMERIC_NAMES), "lang": None, "nn": False,
+                "re": rng.choice([True, "copy"])}
+        extra = [base, _retyped_sibling(rng, base),
+                 {"k": "lit", "lex": rng.choice(["5", "10", "1.5", "-3"]), "dt": XSD + rng.choice(["integer", "decimal"]), "lang": None, "nn": False}]
+        terms = (terms + extra)[-7:] if len(terms) + 3 > 7 else terms + extra
+        n = len(terms)
     rng.shuffle(terms)
     p1 = list(range(n)); rng.shuffle(p1)
     p2 = list(range(n)); rng.shuffle(p2)
@@ -484,6 +509,8 @@ def build(t):
         return BNode(_sn_gen=lambda: t["gen"], _prefix=t.get("prefix", "N"))
     if k == "lit" and t.get("re") == "lang":   # a datatyped literal re-made into a language-tagged one
         return Literal(Literal(t["lex"], datatype=t.get("dt"), normalize=False), lang=t.get("lang"))
+    if k == "lit" and t.get("re") == "copy":   # copy construction of a datatyped literal
+        return Literal(Literal(t["lex"], datatype=t.get("dt"), normalize=False))
     if k == "lit" and t.get("re"):             # a plain / language-tagged literal re-typed
         return Literal(Literal(t["lex"], lang=t.get("lang")), datatype=t.get("dt"))
     if k == "lit":
@@ -779,7 +806,9 @@ def run_impl(case):
                 if bad:
                     break
             lits = [x for x in s1 if isinstance(x, Literal)]
-            strict = _try(lambda: all((a == b) or ((a < b) != (b < a)) for a in lits for b in lits)) is True
+            # demanded when no two unequal literals of the list are incomparable (value-equal literals such as 1 / 1.0
+            # are neither <, > nor == each other by design); a pair ordered by `>` only counts as ordered
+            strict = _try(lambda: all((a == b) or (a < b) or (b < a) or (a > b) or (b > a) for a in lits for b in lits)) is True
             n1 = [x for x in s1 if not isinstance(x, Literal)]
             n2 = [x for x in s2 if not isinstance(x, Literal)]
             if len(n1) != len(n2) or any(not _same(x, y) for x, y in zip(n1, n2)):
@@ -1279,7 +1308,20 @@ _ORDER_TAGS = {"order-eq", "order-asym", "order-exc"}
 _SORT_TAGS = {"sort-exc", "sort-repro"}
 
 
+def _by_value(a, b):
+    """the pair is ordered in value space: both have a value and the datatypes are both numeric, or the same with the same tag"""
+    if a.value is None or b.value is None:
+        return False
+    if a.datatype in T._NUMERIC_LITERAL_TYPES and b.datatype in T._NUMERIC_LITERAL_TYPES:
+        return not a.ill_typed and not b.ill_typed    # the numeric fast path; an ill-typed one goes by datatype IRI
+    da = str(a.datatype) if a.datatype is not None else XSD + "string"
+    db = str(b.datatype) if b.datatype is not None else XSD + "string"
+    return da == db and (a.language or "").lower() == (b.language or "").lower()
+
+
 def _lt_cycle(lits):
+    """a `<` cycle of three literals that mixes value order with the fall-back order (datatype IRI / lexical form):
+    the shape of finding K4.  A cycle whose pairs are all ordered the same way is something else."""
     def lt(a, b):
         r = _try(lambda: a < b)
         return r is True
@@ -1288,7 +1330,9 @@ def _lt_cycle(lits):
             if a is not b and lt(a, b):
                 for c in lits:
                     if c is not a and c is not b and lt(b, c) and lt(c, a):
-                        return True
+                        kinds = {_try(lambda p=p: _by_value(*p)) for p in ((a, b), (b, c), (c, a))}
+                        if True in kinds and False in kinds:
+                            return True
     return False
 
 
